@@ -23,6 +23,12 @@ def _ew(fn):
         out = kw.pop("out", None)
         where = kw.pop("where", None)
         kw.pop("dtype", None)
+        if any(isinstance(a, Opaque) or getattr(a, "opaque_like", False) for a in list(args) + [out, where]):
+            # unknown operands (frame-tracking mode): unknown result; a store through out= is tracked
+            if out is not None and hasattr(out, "sym_setitem") and getattr(out, "opaque_like", False):
+                out.sym_setitem(it, None, None)
+                return out
+            return Opaque("ufunc(unknown)")
         if kw:
             raise EngineError(f"numpy ufunc keyword {list(kw)}")
         r = elementwise(it, lambda *xs: fn(it, *xs), *args)
@@ -243,6 +249,8 @@ def make_numpy(it):
             return Arr(Space.get(n.z.decl().name()[2:]), val, True)
         if isinstance(n, int):
             return real_np.full(n, val)
+        if getattr(it, "lenient_numpy", False):
+            return Opaque("np allocation")
         if isinstance(n, tuple) and len(n) == 2:
             raise EngineError("2-D allocation")
         raise EngineError(f"allocation of symbolic length {n!r}")
@@ -342,6 +350,8 @@ def make_numpy(it):
             if any(isinstance(x, Opaque) for x in list(a) + list(k.values())):
                 from .interp import _why
                 return Opaque(f"np.{attr}({', '.join(_why(x) for x in a)})")
+            if getattr(it, "lenient_numpy", False):
+                return Opaque(f"np.{attr}(...)")
             raise EngineError(f"numpy.{attr} has no summary")
         return Native(fallback, name=f"np.{attr}")
     return Namespace("numpy", attrs, default=default)
